@@ -135,6 +135,24 @@ fn main() {
             .map(|v| v.as_str().unwrap().to_string())
             .collect();
         let extracted = select::extract(&file, &sels, rel, false);
+        // per-source overrides of the name-based maps (a method name can mean different things in different files)
+        let cfg = {
+            let mut c = cfg.clone();
+            if let Some(m) = src["method_map"].as_object() {
+                for (k, v) in m {
+                    match v.as_str() {
+                        Some(f) if !f.is_empty() => { c.method_map.insert(k.clone(), f.to_string()); }
+                        _ => { c.method_map.remove(k); }
+                    }
+                }
+            }
+            if let Some(a) = src["chain_map"].as_array() {
+                for e in a {
+                    c.chain_map.push((rules::norm(e["chain"].as_str().unwrap()), e["fn"].as_str().unwrap().to_string()));
+                }
+            }
+            c
+        };
         for group in extracted {
             // group = either a free item or an impl block with chosen methods
             select::emit_group(
